@@ -44,8 +44,9 @@ Step1 ==
               IN Step(dg, laddr, cur, issued, got \cup {r}, v3)
          [] e.ev = "UQuiesce" ->
               \* little was in flight at any time: loopback delivered everything
+              \* (datagrams the kernel itself discarded on reception -- its own counters -- were never received)
               LET unseen == {key \in DOMAIN dg : dg[key].seen # 1}
-                  v1 == Check(unseen = {}, "OneEventPerDatagram", unseen, viols)
+                  v1 == Check(Cardinality(unseen) <= e.kdrops, "OneEventPerDatagram", <<unseen, e.kdrops>>, viols)
                   v2 == Check(issued \ got = {}, "EveryReplyArrives", issued \ got, v1)
               IN Same(v2)
          [] e.ev = "RunStuck" -> Same(Check(FALSE, "RunReturnsInBoundedTime", "udp", viols))
